@@ -26,7 +26,7 @@ func main() {
 	res := lib.NewResult("C17", f)
 
 	exh := res.Tie("group-exhaustive", "K4",
-		"EXHAUSTIVE: member counts 0..4 x every ok/fail assignment x every completion order (permutation) x every strategy "+
+		"EXHAUSTIVE: member counts 0..4 (thorough: 0..5) x every ok/fail assignment x every completion order (permutation) x every strategy "+
 			"through group.Execute (Unspecified, All, Most, Any, One, Fast, Race, an out-of-range value) and through the strategies' own functions "+
 			"(ExecuteAll/Most/Any/One/Fast/Race, ExecuteUpTo with every allowedErrors in -1..n); members are gated and released in the chosen order; "+
 			"compared: result slice or (msg,index,error), which error, the point at which the call returned, the members' context state after each completion, "+
@@ -139,9 +139,17 @@ func exhaustiveCases(f lib.Flags) []tcase {
 		{"x", "unspec", 3}, {"x", "other", 3},
 		{"d", "all", 4}, {"d", "most", 4}, {"d", "any", 4}, {"d", "one", 4}, {"d", "fast", 4}, {"d", "race", 4}, {"d", "upto", 4}}
 	var out []tcase
-	for n := 0; n <= 4; n++ { // small cases first: the first input per signature becomes the replay
+	top := 4
+	if f.Thorough() {
+		top = 5 // thorough: 5 members as well (except the ExecuteUpTo budget sweep and the aliases of All)
+	}
+	for n := 0; n <= top; n++ { // small cases first: the first input per signature becomes the replay
 		for _, cb := range combos {
-			if n > cb.maxN {
+			maxN := cb.maxN
+			if f.Thorough() && cb.strat != "upto" && cb.strat != "unspec" && cb.strat != "other" {
+				maxN = 5
+			}
+			if n > maxN {
 				continue
 			}
 			alloweds := []int{0}
